@@ -8,12 +8,11 @@
   repeated callbacks), and (b) ends in exactly the table's contents (rules out missing ones) —
   after every public operation: add, remove, remove-by-source, destruction.
 
-  PARTIAL with respect to the property text: the atomic reload
-  (copy_except_socket + swap + pfx_table_notify_diff, "only the net difference is reported") and
-  the rollback of a failed synchronisation are covered by the correspondence and the Python
-  oracle of the check (reload histories), and rollback is a sequence of add/remove and therefore
-  covered by `log_replays`; a Lean theorem `notifyDiff_net` about the net difference is not
-  proved yet.
+  The atomic reload (copy_except_socket + swap + pfx_table_notify_diff: "only the net difference
+  for the reloading cache is reported") is proved in RtrProps/C09b.lean (`notifyDiff_net`,
+  `reload_log_replays`, `log_replays_reload`: histories that mix reloads with the operations
+  below).  The rollback of a failed synchronisation is a sequence of add/remove and is covered by
+  `log_replays`.
 -/
 import RtrProofs.TableSet
 import RtrProps.C02
